@@ -496,6 +496,69 @@ PROPS["C02"] = {
 }
 
 
+def capi_cpp_leg(ctx):
+    """C19 thorough: the extern "C" ABI through the shipped C++ bindings, built with clang ASan+UBSan, against the Rust core."""
+    import os, subprocess, sys
+    if ctx["tier"] != "thorough":
+        return [], []
+    build = ctx["build"]
+    tdir = os.path.join(build, "target-capi")
+    env = dict(ctx["env"])
+    env["CARGO_TARGET_DIR"] = tdir
+    problems = []
+
+    def fail(kind, text):
+        return [], [{"shard": -1, "build": "capi_cpp", "kind": kind, "stderr": (text or "")[-1500:]}]
+
+    r = subprocess.run(["cargo", "rustc", "--offline", "--release", "-p", "temporal_capi", "--crate-type", "staticlib", "--quiet"], cwd="/repo", env=env, capture_output=True, text=True)
+    if r.returncode != 0:
+        return fail("staticlib build failed", r.stderr)
+    r = subprocess.run(["cargo", "build", "--offline", "--release", "--quiet"], cwd=os.path.join(ctx["verif"], "capi_cpp", "ref"), env=env, capture_output=True, text=True)
+    if r.returncode != 0:
+        return fail("reference build failed", r.stderr)
+    drv = os.path.join(build, "capi_driver")
+    r = subprocess.run(["clang++-14", "-std=c++17", "-O1", "-g", "-fsanitize=address,undefined", "-fno-sanitize-recover=all", "-I", "/repo/temporal_capi/bindings/cpp",
+                        os.path.join(ctx["verif"], "capi_cpp", "driver.cpp"), os.path.join(tdir, "release", "libtemporal_capi.a"), "-lm", "-lpthread", "-ldl", "-o", drv], capture_output=True, text=True)
+    if r.returncode != 0:
+        return fail("C++ driver build failed", r.stderr)
+    n = 400000
+    cases = subprocess.run([sys.executable, os.path.join(ctx["verif"], "capi_cpp", "gen_cases.py"), str(ctx["seed"]), str(n)], capture_output=True, text=True).stdout
+    e2 = dict(os.environ)
+    e2["ASAN_OPTIONS"] = "detect_leaks=1:abort_on_error=0"
+    cpp = subprocess.run([drv], input=cases, capture_output=True, text=True, env=e2)
+    ref = subprocess.run([os.path.join(tdir, "release", "capi_ref")], input=cases, capture_output=True, text=True)
+    viol = []
+    if cpp.returncode != 0:
+        first = next((l for l in cpp.stderr.splitlines() if "ERROR: AddressSanitizer" in l or "runtime error" in l or "LeakSanitizer" in l), cpp.stderr[-300:])
+        key = first.split(" on address")[0][:140]
+        viol.append({"sig": f"C19/C19.ffi_memory/clang-sanitizers/{key}", "count": 1, "witnesses": [{"clause": "C19.ffi_memory", "op": "clang-sanitizers", "shape": key,
+                     "case": {"processed_lines": len(cpp.stdout.splitlines())}, "got": cpp.stderr[-1500:], "expected": "no sanitizer report", "case_idx": 0}]})
+    cl, rl, il = cpp.stdout.splitlines(), ref.stdout.splitlines(), cases.splitlines()
+    diffs = {}
+    for i, (a, b) in enumerate(zip(cl, rl)):
+        if a != b:
+            fa, fb = a.split(" "), b.split(" ")
+            field = next(((x.split("=")[0] if "=" in x else f"field{j}") for j, (x, y) in enumerate(zip(fa, fb)) if x != y), "length")
+            key = f"{fa[0]}.{field}"
+            d = diffs.setdefault(key, [0, None])
+            d[0] += 1
+            if d[1] is None:
+                d[1] = {"clause": "C19.ffi_abi", "op": key, "shape": "different-through-the-C++-bindings", "case": {"input": il[i]}, "got": a[:600], "expected": b[:600], "case_idx": i}
+    for key, (cnt, w) in diffs.items():
+        viol.append({"sig": f"C19/C19.ffi_abi/{key}/different-through-the-C++-bindings", "count": cnt, "witnesses": [w]})
+    if cpp.returncode == 0 and len(cl) != len(rl):
+        problems.append({"shard": -1, "build": "capi_cpp", "kind": f"line count differs: {len(cl)} vs {len(rl)}"})
+    rep = {"evaluations": len(cl), "distinct_nontrivial": len(set(cl)), "counters": {"capi_cpp/cases": len(cl), "capi_cpp/lines_compared": min(len(cl), len(rl))},
+           "samples": [{"cpp_binding_case": il[0], "output": cl[0] if cl else ""}], "violations": viol, "shard": 0, "nshards": 1, "seed": ctx["seed"], "tier": ctx["tier"], "build": "capi_cpp", "harness_errors": []}
+    return [rep], problems
+
+
+PROPS["C19"]["legs"] = [capi_cpp_leg]
+PROPS["C19"]["rule"] += ("; thorough tier additionally drives 400 000 generated cases (PlainDate, PlainTime, PlainDateTime, Duration, Instant, PlainYearMonth / PlainMonthDay; constructors, "
+                         "accessors, add / subtract / until, round, to_ixdtf_string) through the shipped C++ bindings and the extern \"C\" ABI in a clang AddressSanitizer + "
+                         "UndefinedBehaviorSanitizer build (leak detection on) and compares every output line with the same case through the Rust core")
+
+
 NOT_CLAIMED = {}
 
 
